@@ -171,7 +171,7 @@ PROPS = {
     },
     "C03": {
         "level": "proof",
-        "lean_targets": ["LP.Props.C03"],
+        "lean_targets": ["LP.Props.C03", "LP.Props.C03Greatest"],
         "harnesses": [{"name": "h_gcd", "quick": 6000, "thorough": 80000}],
         "select": lambda t: t[1] in ("gcd", "ugcd"),
         "nontrivial": lambda t, r: True,
